@@ -205,7 +205,7 @@ def check(args):
         return 2
     tier = args.tier or os.environ.get("VERIF_TIER") or "quick"
     seed = int(os.environ.get("VERIF_SEED", "1") or 1)
-    workers = args.workers or int(os.environ.get("VERIF_WORKERS", "0") or 0) or min(16, os.cpu_count() or 4)
+    workers = args.workers or int(os.environ.get("VERIF_WORKERS", "0") or 0) or min(meta.get("workers", 16), os.cpu_count() or 4)
     budget = args.budget or meta["budget"][tier]
     family = meta.get("family", prop)
     race = bool(meta.get("race"))
